@@ -22,7 +22,7 @@ from shapepy.shape import BaseShape
 
 from . import model
 
-BINARY_OPERATORS = ("or", "and", "sub", "xor", "add", "mul")
+BINARY_OPERATORS = ("or", "and", "sub", "xor", "add", "mul", "ior", "iand", "isub", "ixor")
 UNARY_OPERATORS = ("inv", "neg")
 COPIES = ("copy", "deepcopy", "simple_from_jordan", "jcopy", "jinv", "jabs")
 UNARY_QUERIES = (
@@ -138,6 +138,19 @@ def perform(step, objs):
         return a + b
     if op == "mul":
         return a * b
+    if op in ("ior", "iand", "isub", "ixor"):
+        # augmented assignment on a second reference: shapes define no in-place operators, so
+        # the name is rebound to a new object and the operand itself must stay as it was
+        tmp = a
+        if op == "ior":
+            tmp |= b
+        elif op == "iand":
+            tmp &= b
+        elif op == "isub":
+            tmp -= b
+        else:
+            tmp ^= b
+        return tmp
     if op == "inv":
         return ~a
     if op == "neg":
@@ -159,6 +172,8 @@ def perform(step, objs):
     if op == "bool":
         return bool(a)
     if op == "moment":
+        if step.get("nnodes") is not None:
+            return IntegrateShape.polynomial(a, step["ea"], step["eb"], step["nnodes"])
         return IntegrateShape.polynomial(a, step["ea"], step["eb"])
     if op == "jlen":
         return float(jordan_of(a, step["k"], step.get("kkey")))
